@@ -27,6 +27,11 @@ Calls == {Call(s, w, o) : s \in Secs, w \in BOOLEAN, o \in BOOLEAN}
 Book(n, calls) == [k |-> "fpbook", nel |-> n, calls |-> calls]
 Books == {Book(n, <<c>>) : n \in {1, 2, 3}, c \in Calls}
          \cup {Book(2, <<c1, c2>>) : c1 \in {c \in Calls : c.whas}, c2 \in {c \in Calls : ~c.whas /\ c.ohas}}
+         \* thorough: every ordered pair of calls, and triples of sections with all targets given
+         \cup (IF Depth = "thorough"
+               THEN {Book(2, <<c1, c2>>) : c1 \in Calls, c2 \in Calls}
+                    \cup {Book(3, <<Call(s1, TRUE, TRUE), Call(s2, FALSE, TRUE), Call(s3, TRUE, FALSE)>>) : s1 \in Secs, s2 \in Secs, s3 \in Secs}
+               ELSE {})
 
 \* ---- (b) regions -----------------------------------------------------------------------
 Q4(s) == [i \in DOMAIN s |-> <<4 * s[i][1], 4 * s[i][2]>>]
@@ -39,7 +44,8 @@ Ends == {"flush", "halfwidth", "extended", "round"}
 El(hw, off, j, e) == [hw |-> hw, off |-> off, join |-> j, end |-> e, ext |-> <<6, -2>>]
 QuickKeep(i) == Depth = "thorough" \/ i % 5 = 0
 RegionsAll == {[k |-> "fpregion", spine |-> sp, win |-> <<-6, 30, -18, 22>>, els |-> <<El(hw, o1, j, e), El(hw, o2, j, e)>>]
-                 : sp \in Spines, hw \in UNION {HwPats(n) : n \in 2..4}, o1 \in {0, 8}, o2 \in {-6},
+                 : sp \in Spines, hw \in UNION {HwPats(n) : n \in 2..4},
+                   o1 \in (IF Depth = "thorough" THEN {0, 8, -4} ELSE {0, 8}), o2 \in {-6},
                    j \in Joins, e \in Ends}
 Regions == {r \in RegionsAll : Len(r.els[1].hw) = Len(r.spine)}
 
@@ -50,7 +56,9 @@ BendSpines == {<< <<0, 0>>, <<10, 0>>, <<10, 8>> >>,                       \* on
                << <<0, 0>>, <<3, 0>>, <<3, 10>> >>,                      \* first leg too short for large radii
                << <<0, 0>>, <<9, 0>>, <<9, -9>>, <<0, -9>>, <<0, -2>> >>} \* three right turns
 Bends == {[k |-> "fpbend", spine |-> sp, w |-> w, o |-> o, r |-> r, ends |-> e, tolk |-> 2] :
-            sp \in BendSpines, w \in {1000, 600}, o \in {0, 750, -750}, r \in {4000, 2000}, e \in {"flush", "round"}}
+            sp \in BendSpines, w \in (IF Depth = "thorough" THEN {1000, 600, 1600} ELSE {1000, 600}),
+            o \in (IF Depth = "thorough" THEN {0, 750, -750, 300, -1200} ELSE {0, 750, -750}),
+            r \in (IF Depth = "thorough" THEN {4000, 2000, 3500, 2500, 5000} ELSE {4000, 2000}), e \in {"flush", "round"}}
 Init == case \in Books \cup Regions \cup Bends
 Next == UNCHANGED case
 
